@@ -14,6 +14,11 @@ THEOREMS = [
     "PyTrie.Props.C06.setE_balance",
     "PyTrie.Props.C06.deleteE_balance",
     "PyTrie.Props.C06.refSound_of_sound",
+    "PyTrie.Props.C06.prune_invariant_init",
+    "PyTrie.Props.C06.prune_invariant_step",
+    "PyTrie.Props.C06.regenerate_is_true_count",
+    "PyTrie.Props.C06.keccak_embedded",
+    "PyTrie.Props.C06.reach_invariant",
 ]
 RULE = ("pruning tries started on an empty database and modified only through their own API: histories of "
         "set/delete/set-to-empty/no-op updates and squash_changes blocks (committed and aborted) over prefix-sharing "
